@@ -786,10 +786,10 @@ func c19QuotaScript(rng *rand.Rand, n int) []c01Op {
 			if o, ok := g.podOp(id); ok {
 				switch o.Op {
 				case "podAdd", "podUpdate":
-					if bound[id] {
+					if bound[id] && !o.Term { // a finished pod keeps its node name but is not "bound" in the spec's sense
 						o.Bound = true
 					}
-					bound[id] = o.Bound
+					bound[id] = o.Bound || o.Term
 				case "podDelete":
 					delete(bound, id)
 				}
